@@ -95,7 +95,7 @@ var c11rLogOnce sync.Once
 var c11rStart = time.Now()
 
 func c11rOverBudget() bool {
-	b := 90 * time.Second
+	b := 10 * time.Second // quick: ≈ 2× what the tier's 300 cases need; bounds the driver's 5× wider search
 	if os.Getenv("VERIF_TIER") == "thorough" {
 		b = 780 * time.Second
 	}
